@@ -190,6 +190,79 @@ theorem stopBlockProc_stopping_procNone {cfg : Cfg} {inner : Ops} (hin : OpsPN P
   · rename_i hg
     exact hg
 
+/-- `stop()`'s block/processor phase leaves nothing requested or parked either -/
+theorem stopBlockProc_stopping_calm {cfg : Cfg} {inner : Ops} (hin : OpsPN Calm inner) (hpn : OpsPN ProcNone inner) (s : St)
+    (hst : s.stopping = true) (hq : activeReq s.requestD = none) (hpk : s.parked.isSome = true → s.msgBlock = true) :
+    Calm (stopBlockProc cfg inner s) := by
+  have hp := stopBlockProc_stopping_procNone (cfg := cfg) hpn s hst
+  refine ⟨hp, ?_⟩
+  obtain ⟨f1, f2⟩ := stopBlock_facts s
+  have cb : CalmR (stopBlock s) := by
+    unfold CalmR stopBlock
+    cases hpp : s.parked with
+    | none => split <;> simp [hq, hpp]
+    | some r =>
+      have hb := hpk (by rw [hpp]; rfl)
+      simp [hb, hpp, activeReq]
+  unfold stopBlockProc
+  generalize stopBlock s = sb at *
+  split
+  · rename_i g hg
+    unfold procResult
+    simp only []
+    have hk := handleProcessorError_keeps (Fail.ext ErrKind.cancelled 0) { emit Ob.procCancel sb with proc := none }
+    have c1 : Calm (procFired cfg g (some (Fail.ext ErrKind.cancelled 0)) (emit Ob.procCancel sb)) :=
+      ⟨hk.1, CalmR.of_keeps hk ⟨cb.1, cb.2⟩⟩
+    have st1 : (procFired cfg g (some (Fail.ext ErrKind.cancelled 0)) (emit Ob.procCancel sb)).stopping = true :=
+      hk.2.1.trans (f1.trans hst)
+    have mb1 : (procFired cfg g (some (Fail.ext ErrKind.cancelled 0)) (emit Ob.procCancel sb)).msgBlock = false :=
+      hk.2.2.1.trans f2
+    generalize procFired cfg g (some (Fail.ext ErrKind.cancelled 0)) (emit Ob.procCancel sb) = s1 at *
+    have hres : ∀ p, procResume cfg inner g p s1 = s1 := by
+      intro p
+      unfold procResume
+      split
+      · rfl
+      · simp only []
+        have hl : procLoop cfg inner (g.rest.length + 1) g.rest s1 = (s1, true) := by
+          unfold procLoop; simp [st1]
+        rw [hl]
+        simp only [c1.1]
+        unfold finishFull
+        simp [mb1]
+    rw [hres]
+    split
+    · exact (commitAndStop_pn calm_ok hin _ c1).2
+    · exact c1.2
+  · exact cb
+
+section
+variable {cfg : Cfg} {inner : Ops} (hqt : OpsPN Quiet inner) (hc : OpsPN Calm inner) (hpn : OpsPN ProcNone inner)
+include hpn
+
+include hqt in
+/-- after `stop()`'s body: no generator suspended, no refetch scheduled (from ANY state) -/
+theorem stopCore_quiet_any (s : St) : Quiet (stopCore cfg inner s) := by
+  have k0 := stopReq_keeps0 cfg { s with stopping := true }
+  have p2 := stopBlockProc_stopping_procNone (cfg := cfg) hpn (stopReq cfg { s with stopping := true }) k0.2.1
+  have q3 := stopRetry_quiet _ p2
+  unfold stopCore
+  simp only []
+  exact stopFinish_quiet _ (stopTail_pn quiet_ok hqt q3)
+
+include hc in
+/-- after `stop()`'s body: no uncancelled request outstanding, no reply parked -/
+theorem stopCore_calm_any (s : St) (hpk : s.parked.isSome = true → s.msgBlock = true) : Calm (stopCore cfg inner s) := by
+  have k0 := stopReq_keeps0 cfg { s with stopping := true }
+  have c2 := stopBlockProc_stopping_calm (cfg := cfg) hc hpn (stopReq cfg { s with stopping := true }) k0.2.1
+    (stopReq_calm cfg _) (by rw [stopReq_parked, k0.2.2.1]; exact hpk)
+  have c3 := stopRetry_calm _ c2
+  unfold stopCore
+  simp only []
+  exact stopFinish_calm _ (stopTail_pn calm_ok hc c3)
+
+end
+
 /-! ## The processing loop issues no request and parks no reply -/
 
 theorem procLeave_calmR (res : PRes) (rest' : List Msg) (last : Int) (s : St) (h : CalmR s) :
